@@ -144,6 +144,35 @@ func hostileGenesis(r *rand.Rand, collide, ck int) *ct.GenesisState {
 			}
 		}
 	case 3:
+		if r.Intn(2) == 0 {
+			// dense: one source domain holding nonces spread over the whole 64-bit range (order-sensitive duplicate
+			// detection - sorting, neighbour comparison, subtraction-based comparators - meets its hard cases here)
+			d := Domains[r.Intn(len(Domains))]
+			gs.UsedNoncesList = nil
+			seenU = map[nonceKey]bool{}
+			add := func(n uint64) {
+				if k := (nonceKey{d, n}); !seenU[k] {
+					seenU[k] = true
+					gs.UsedNoncesList = append(gs.UsedNoncesList, ct.Nonce{SourceDomain: d, Nonce: n})
+				}
+			}
+			if r.Intn(2) == 0 {
+				for _, n := range HostileNonces {
+					if r.Intn(4) != 0 {
+						add(n)
+					}
+				}
+				for i := 2 + r.Intn(10); i > 0; i-- {
+					add(r.Uint64())
+					add(uint64(5) + uint64(r.Intn(8))<<61)
+				}
+			} else { // a handful of values an eighth of the range apart
+				base := uint64(r.Intn(9))
+				for i := 3 + r.Intn(4); i > 0; i-- {
+					add(base + uint64(r.Intn(8))<<61)
+				}
+			}
+		}
 		if len(gs.UsedNoncesList) == 0 {
 			gs.UsedNoncesList = append(gs.UsedNoncesList, ct.Nonce{SourceDomain: 0, Nonce: 0})
 			seenU[nonceKey{0, 0}] = true
@@ -395,6 +424,7 @@ func runC17(rc *RunCtx) {
 			rc.Cov.Sample(map[string]interface{}{"genesis": c17Case(gs), "collision": kindName, "validate_error": fmt.Sprint(verr)})
 		}
 	}
+	c17SmallOrderings(rc)
 	// large states: more entries than any default page size, exported and re-imported
 	for big := 0; big < rc.Pick(1, 3); big++ {
 		if rc.Shard != big%rc.NShards {
@@ -444,6 +474,94 @@ func runC17(rc *RunCtx) {
 				}
 				c17Raw(rc, src, dst, "reachable", gs)
 				rc.Cov.Cell("C17_roundtrips", "reachable")
+			}
+		}
+	}
+}
+
+// c17SmallOrderings: exhaustive over small lists - every choice of three keys out of eight spread over the whole
+// value range, with and without one of them repeated, in every order. Duplicate detection must not depend on the
+// order of the list or on how far apart the key values are.
+func c17SmallOrderings(rc *RunCtx) {
+	v64 := []uint64{0, 5, 5 + 1<<61, 5 + 1<<62, 5 + 1<<63, 5 + 1<<63 + 1<<61, 1 << 63, ^uint64(0)}
+	v32 := []uint32{0, 1, 1 << 29, 1 << 30, 1 << 31, 1<<31 + 1<<29, 0xfffffffe, 0xffffffff}
+	perms := func(n int) [][]int {
+		var out [][]int
+		var rec func(cur []int, used []bool)
+		rec = func(cur []int, used []bool) {
+			if len(cur) == n {
+				out = append(out, append([]int(nil), cur...))
+				return
+			}
+			for i := 0; i < n; i++ {
+				if !used[i] {
+					used[i] = true
+					rec(append(cur, i), used)
+					used[i] = false
+				}
+			}
+		}
+		rec(nil, make([]bool, n))
+		return out
+	}
+	p3, p4 := perms(3), perms(4)
+	idx := 0
+	for kind := 0; kind < 4; kind++ {
+		for a := 0; a < 8; a++ {
+			for b := a + 1; b < 8; b++ {
+				for c := b + 1; c < 8; c++ {
+					idx++
+					if idx%rc.NShards != rc.Shard {
+						continue
+					}
+					for dup := -1; dup < 3; dup++ {
+						ks := []int{a, b, c}
+						ps := p3
+						if dup >= 0 {
+							ks = append(ks, ks[dup])
+							ps = p4
+						}
+						for _, pm := range ps {
+							gs := StdGenesis()
+							gs.UsedNoncesList, gs.TokenMessengerList, gs.TokenPairList = nil, nil, nil
+							for _, pi := range pm {
+								k := ks[pi]
+								switch kind {
+								case 0:
+									gs.UsedNoncesList = append(gs.UsedNoncesList, ct.Nonce{SourceDomain: 3, Nonce: v64[k]})
+								case 1:
+									gs.UsedNoncesList = append(gs.UsedNoncesList, ct.Nonce{SourceDomain: v32[k], Nonce: 1 << 63})
+								case 2:
+									gs.TokenMessengerList = append(gs.TokenMessengerList, ct.RemoteTokenMessenger{DomainId: v32[k], Address: Messenger(v32[k], 0)})
+								case 3:
+									gs.TokenPairList = append(gs.TokenPairList, ct.TokenPair{RemoteDomain: v32[k], RemoteToken: Token(4), LocalToken: "uusdc"})
+								}
+							}
+							var verr error
+							func() {
+								defer func() {
+									if p := recover(); p != nil {
+										verr = fmt.Errorf("panic: %v", p)
+										rc.Report(Violation{Props: []string{"C20", "C17"}, Monitor: "crash-tap/recover", Sig: "panic:GenesisState.Validate", Detail: fmt.Sprint(p), Case: c17Case(gs)})
+									}
+								}()
+								verr = gs.Validate()
+							}()
+							rc.Cov.Evaluations++
+							name := []string{"used-nonces(nonce)", "used-nonces(domain)", "messengers", "pairs"}[kind]
+							rc.Cov.Cell("C17_small_orderings", fmt.Sprintf("%s/duplicate=%v/accepted=%v", name, dup >= 0, verr == nil))
+							rc.Cov.Assert("C17.collision-implies-reject")
+							if dup >= 0 && verr == nil {
+								rc.Report(Violation{Props: []string{"C17"}, Monitor: "validate/collision", Sig: "C17:validate-accepts-duplicate:" + strings.Split(name, "(")[0],
+									Detail: "Validate accepted a genesis in which two entries of " + name + " occupy the same key (small list, specific order)", Case: c17Case(gs)})
+							}
+							if dup < 0 && verr != nil {
+								rc.Report(Violation{Props: []string{"C17"}, Monitor: "validate/collision", Sig: "C17:validate-rejects-distinct-keys:" + strings.Split(name, "(")[0],
+									Detail: "Validate rejected a genesis whose entries all have distinct keys: " + verr.Error(), Case: c17Case(gs)})
+							}
+						}
+					}
+				}
 			}
 		}
 	}
